@@ -84,3 +84,21 @@ Definition read_file_eager_cur_std (prs_float : list N -> option N) (text : list
   read_file_eager_cur prs_float NV.Fasta.Fastq.utf8_valid text.
 Definition read_file_lazy_cur_std (prs_float : list N -> option N) (text : list N) :=
   read_file_lazy_cur prs_float NV.Fasta.Fastq.utf8_valid text.
+
+(* the same switch on a header given as LINES without terminators (the line-level model
+   NV.Vcf.Header.read_header / NV.Vcf.File.read_header_chk, kinds hw / hp of the correspondence
+   check): the lines handed to the parser end with the first line after the first one that starts
+   with "#CHROM" *)
+Fixpoint header_prefix_sw (sw : bool) (first : bool) (lines : list (list N)) : list (list N) :=
+  match lines with
+  | (35 :: t) :: rest =>
+      if sw && negb first && match strip_prefix c_CHROM (35 :: t) with Some _ => true | None => false end
+      then [35 :: t]
+      else (35 :: t) :: header_prefix_sw sw false rest
+  | _ => []
+  end.
+
+Definition read_header_chk_sw (sw : bool) (lines : list (list N)) : option vheader :=
+  parse_header_chk (header_prefix_sw sw true lines).
+Definition read_header_chk_cur (lines : list (list N)) : option vheader :=
+  read_header_chk_sw header_stops_at_chrom_line lines.
